@@ -277,6 +277,38 @@ def hier_labels_case(draw):
             "kw": R.subset(draw, {"beta": st.sampled_from([0.5, 2.0]), "window": st.sampled_from([1.0, 2.0, 4.0])})}
 
 
+@st.composite
+def many_labels_case(draw):
+    """a hierarchy whose finest level gives every segment its own label (beat-like layer, or boundary-only data named by
+    util.generate_labels): several hundred distinct labels in ONE level"""
+    n = draw(st.sampled_from([40, 257, 300, 520]))
+    return {"n": n, "seed": draw(st.integers(0, 10 ** 6)), "which": draw(st.sampled_from(["ref", "est", "both"]))}
+
+
+def pred_many_labels(case, ctx):
+    rs = np.random.RandomState(case["seed"])
+    n = case["n"]
+    T = n * 0.5
+    fine = np.c_[np.arange(n) * 0.5, np.arange(1, n + 1) * 0.5]
+
+    def coarse(k):
+        b = np.unique(np.r_[0.0, T, rs.randint(1, n, k) * 0.5])
+        return np.c_[b[:-1], b[1:]]
+    c1, c2 = coarse(6), coarse(9)
+    uniq = ["s%d" % i for i in rs.permutation(n)]
+    few = lambda m: list(rs.choice(list("abcd"), m))
+    ri, rl = [c1, fine], [few(len(c1)), list(uniq) if case["which"] in ("ref", "both") else few(n)]
+    ei, el = [c2, fine], [few(len(c2)), list(uniq[::-1]) if case["which"] in ("est", "both") else few(n)]
+    flat_r, flat_e = [x for l in rl for x in l], [x for l in el for x in l]
+    mr = dict(zip([x.lower() for x in flat_r], [y.lower() for y in _bijection(flat_r, case["seed"], "P")]))
+    me = dict(zip([x.lower() for x in flat_e], [y.lower() for y in _bijection(flat_e, case["seed"] + 1, "Q")]))
+    rl2 = [[mr[x.lower()] for x in l] for l in rl]
+    el2 = [[me[x.lower()].upper() for x in l] for l in el]
+    _same("hierarchy.lmeasure (label bijection, %d distinct labels in one level)" % n, ctx.call(hierarchy.lmeasure, ri, rl, ei, el, frame_size=0.5),
+          ctx.call(hierarchy.lmeasure, ri, rl2, ei, el2, frame_size=0.5), case)
+    return n > 256
+
+
 def pred_hier_labels(case, ctx):
     ri = [_a(l).reshape(-1, 2) for l in case["ref"]["iv"]]
     ei = [_a(l).reshape(-1, 2) for l in case["est"]["iv"]]
@@ -308,4 +340,6 @@ SUBPROPS = [
     SubProp("tempo_order", pred_tempo, strategy=gt.tempo_case, n=(400, 6000), shards=(1, 2), floor=0.3, rule="order of the two estimated tempi"),
     SubProp("segment_label_bijection", pred_segment_labels, strategy=labels_case, n=(600, 12000), shards=(4, 8), floor=0.3, rule="independent label bijections with random capitalisation"),
     SubProp("hierarchy_label_bijection", pred_hier_labels, strategy=hier_labels_case, n=(250, 5000), shards=(4, 8), floor=0.3, rule="label bijections per annotation across levels"),
+    SubProp("hierarchy_many_labels", pred_many_labels, strategy=many_labels_case, n=(10, 120), shards=(8, 16), floor=0.3,
+            rule="two-level hierarchies whose finest level has 40..520 uniquely labelled segments (data from a drawn seed), labels renamed by independent bijections; NT = more than 256 distinct labels in one level"),
 ]
